@@ -549,7 +549,27 @@ pub fn description_states(
             rec += 1;
         }
     }
-    info.push(("D-rec(recursive enum with k<=3 self references in one variant, reached r<=3 times, via Box/Vec/Option<Box>; enums without a leaf variant, self- and mutually recursive)".into(), rec, rec, true));
+    // ... and cycles that pass through a tuple inside a sequence / an array of optional boxes (an element that
+    // fails must fail the whole value, not shorten it)
+    {
+        let node = Def::strukt(&["g", "t"], "Node", &[], named(vec![("id", U8), ("children", Ty::Vec(b(Ty::Tuple(vec![U32, Ty::Named(0, vec![])]))))]));
+        let tree = Def::strukt(
+            &["g", "t"],
+            "Tree",
+            &[],
+            named(vec![("label", U8), ("sub", Ty::Vec(b(Ty::Tuple(vec![U16, Ty::Option(b(Ty::Box(b(Ty::Named(0, vec![])))))]))))]),
+        );
+        let arr = Def::strukt(&["g", "t"], "Pair", &[], named(vec![("key", U32), ("both", Ty::Array(b(Ty::Option(b(Ty::Box(b(Ty::Named(0, vec![])))))), 2))]));
+        for d in [node, tree, arr] {
+            let prog = Program {
+                defs: vec![d],
+                roots: vec![Ty::Named(0, vec![])],
+            };
+            states.push(js(json!({"prog": serde_json::to_value(prog).unwrap(), "seeds": seeds.max(16)})));
+            rec += 1;
+        }
+    }
+    info.push(("D-rec(recursive enum with k<=3 self references in one variant, reached r<=3 times, via Box/Vec/Option<Box>; enums without a leaf variant, self- and mutually recursive; cycles through Vec<(u32, Self)>, Vec<(u16, Option<Box<Self>>)>, [Option<Box<Self>>; 2])".into(), rec, rec, true));
     // D-samename: two definitions with one identifier in different modules (anything remembered per name
     // instead of per id / full path confuses them), every ordered pair of six bodies, both visited from one root
     let mut same = 0u64;
